@@ -87,6 +87,38 @@ Theorem reported_le_offset :
   forall q s evs c p r, reach adm_mono q s evs -> In r (reports c p evs) -> r <= offset s p.
 Proof. exact reported_le_offset_proved. Qed.
 
+(* 2b. Within one subscription this needs no hypothesis at all - not on the schedule and not on
+   the offsets passed to Update (late or racing updaters may store a lower offset): the delivered
+   offset of an existing subscription never goes down in any step, and a scan reports for a
+   subscription only an offset strictly above its delivered one (which becomes the new delivered
+   offset).  So what one subscription is told strictly increases; only Unsubscribe + Subscribe
+   (a new subscription, delivered = 0) can repeat or, after a decreasing update, lower it. *)
+Theorem delivered_never_decreases :
+  forall s a s' o c p d d', step s a = Some (s', o) ->
+  subv (chans s) c p = Some d -> subv (chans s') c p = Some d' -> d <= d'.
+Proof. exact delivered_never_decreases_proved. Qed.
+
+Theorem scan_reports_above_delivered :
+  forall s c s' o ch u p x, step s (AWScan c) = Some (s', o) -> get c (chans s) = Some ch ->
+  wv (chans s') c = WPend u -> In (p, x) u ->
+  exists d, In (p, d) (c_subs ch) /\ d < x /\ x = offset s p.
+Proof. exact scan_reports_above_delivered_proved. Qed.
+
+(* a stale update: 7 delivered, then 3 stored (not admissible for adm_mono, so adm_any), the
+   watcher is woken and scans: nothing is reported, delivered stays 7 *)
+Example stale_update_is_ignored :
+  let l := [ANewChan 0; ASubReg 0 0; ASubMark 0 0; ASubEnq 0 0; AWStart 0; AUpdStore 0 7; AUpdEnq 0;
+            ANDeq; ANMerge; ANSend 0; ANDeq; ANMerge; ANSend 0; AWTake 0; AWScan 0; AWDeliver 0;
+            AUpdStore 0 3; AUpdEnq 0; ANDeq; ANMerge; ANSend 0; AWTake 0; AWScan 0; AWDeliver 0] in
+  exists s evs, run adm_any (init qbig) l = Some (s, evs) /\ quiet s = true /\ offset s 0 = 3 /\
+    reports 0 0 evs = [7] /\ (exists ch, get 0 (chans s) = Some ch /\ get 0 (c_subs ch) = Some 7).
+Proof.
+  cbv zeta.
+  match goal with |- exists s evs, run ?P ?i ?l = _ /\ _ => destruct (run P i l) as [[s evs]|] eqn:E; [|vm_compute in E; discriminate] end.
+  exists s, evs. vm_compute in E. inversion E; subst; clear E. vm_compute.
+  repeat split; try reflexivity. eexists. split; reflexivity.
+Qed.
+
 (* 3. Update never waits on a watcher: its first step is always enabled, and from every
    reachable state (no condition on the schedule, on tokens or on where watchers are parked) the
    notifier alone empties the queue - its steps never wait for a token to be taken - after which
@@ -218,6 +250,8 @@ Print Assumptions quiescent_delivered.
 Print Assumptions quiescent_no_stale.
 Print Assumptions reported_monotone.
 Print Assumptions reported_le_offset.
+Print Assumptions delivered_never_decreases.
+Print Assumptions scan_reports_above_delivered.
 Print Assumptions update_store_enabled.
 Print Assumptions notifier_drains_alone.
 Print Assumptions update_completes_without_watchers.
